@@ -80,10 +80,17 @@ def run_probe(p):
                 py = {"raise": type(e).__name__}
             try:
                 nb = _leaf(numba.njit(fn)(*vals))
+            except ZeroDivisionError as e:
+                # compiled scalar division by zero raises where NumPy returns inf / nan: a singular point, outside the
+                # property's domain (well-conditioned finite operands); it says nothing about typing
+                nb = {"singular": "ZeroDivisionError"}
             except Exception as e:
                 nb = {"raise": type(e).__name__, "msg": str(e)[:300]}
         out.update(py=py, nb=nb)
         exp = p.get("expect") or {}
+        if "singular" in nb or any(isinstance(v, float) and (math.isinf(v) or math.isnan(v)) for v in (list((py.get("fields") or {}).values()) + [py.get("float", 0.0)])):
+            out["status"] = "singular"
+            return out
         if "raise" in nb:
             out["status"] = "ok" if exp.get("kind") == "raise" else "nb_error"
             return out
